@@ -21,7 +21,7 @@ CONSTANTS
   MaxClock = 4
   MaxTotal = 4
   MaxPend = 2
-  MaxAdm = 4
+  MaxAdm = 8
   Acts = {"Bad", "Query", "Tick", "Unban", "MUnban"}
   Atomic = FALSE
   Fixed = {}
